@@ -40,7 +40,8 @@ ASSUMPTIONS = [
     "time triggers use hour-or-longer periods so no roll boundary falls inside the run; console output is captured by "
     "redirecting fd 1 / fd 2 into files while the probes are logged (not a tty: `tty_only` consoles stay silent)",
     "error reports are compared by number (stderr lines `log4rs: `) and, for build errors, typed kind+name; texts never",
-    "strict path = serde parse of RawConfig + log4rs::config::create_raw_config (YAML, JSON; no public TOML entry point)",
+    "strict path = serde parse of RawConfig + log4rs::config::create_raw_config (YAML, JSON; no public TOML entry point); "
+    "for every third document also log4rs::init_raw_config in a child process (the two must decide alike)",
     "dates written by `{d}` and the JSON encoder's `time` field are masked before outputs are compared",
     "file contents are not compared for (mutant) documents in which a size-triggered rolling appender writes time "
     "stamps (chrono prints 3/6/9 fractional digits, so roll points vary between runs); structure still is",
@@ -270,7 +271,9 @@ LEVELS = ["off", "error", "warn", "info", "debug", "trace"]
 DURS = [("30 seconds", 30, 0), ("1s", 1, 0), ("5 min", 300, 0), ("2h 30m", 9000, 0), ("1500ms", 1, 500000000),
         ("1day", 86400, 0), ("100 ms", 0, 100000000), ("3 weeks", 1814400, 0), ("45sec", 45, 0)]
 BAD_DURS = ["soon", "30", "10 parsecs", "", "-5s", "@D@/zz"]
-LOGGER_NAMES = ["app", "app::x", "app::x::y", "other", "lib::é", "app::z", "lib::\U0001F600"]
+LOGGER_NAMES = ["app", "app::x", "app::x::y", "other", "lib::é", "app::z", "lib::\U0001F600",
+                # a logger name is an opaque string of '::'-separated segments: none of these is another one
+                "my-svc", "my_svc", "my-svc::db-pool", "my_svc::db_pool", "My-Svc", "a.b", "web server", "app::X"]
 APP_NAMES = ["a0", "a1", "a2", "a3", "main-file", "app é", "x.y"]
 SIZE_UNITS = [("b", 1), ("kb", 1024), ("kib", 1024), ("mb", 1024 ** 2), ("mib", 1024 ** 2),
               ("gb", 1024 ** 3), ("tb", 1024 ** 4)]
@@ -335,7 +338,7 @@ def gen_logical(rng):
     def refs():
         return [rng.choice(usable) for _ in range(rng.below(3))] if usable else []
     loggers = []
-    for nm in rng.shuffle(LOGGER_NAMES)[:rng.below(5)]:
+    for nm in rng.shuffle(LOGGER_NAMES)[:rng.below(6)]:
         loggers.append({"name": nm, "level": rng.choice([0, 1, 2, 3, 3, 4, 4, 5, 5]), "apps": refs(), "additive": rng.chance(2, 3)})
     return {"refresh": rng.choice(DURS) if rng.chance(1, 2) else None, "root_level": rng.choice([4, 4, 4, 5, 5, 3, 3, 2, 1, 0]),
             "root_apps": refs(), "appenders": apps, "loggers": loggers}
@@ -651,7 +654,7 @@ def file_list(doc):
 
 
 def probes_for(doc, rng):
-    targets = ["", "app", "app::x", "app::x::y::deep", "other", "lib::é", "appx", "lib::\U0001F600"]
+    targets = ["", "app", "app::x", "app::x::y::deep", "other", "lib::é", "appx", "lib::\U0001F600", "my-svc", "my_svc::db_pool::c"]
     lg = doc.get("loggers")
     if isinstance(lg, dict):
         targets += [t for t in lg.keys() if t not in targets]
@@ -890,6 +893,8 @@ def compare(c, impl, model):
         if model[0] == 0:
             if status != 0:
                 return "%s: model rejects the document, load_config_file status=%d" % (ext, status)
+            if strict >= 10:
+                return "%s: model rejects the document, log4rs::init_raw_config %s it" % (ext, ["rejected", "ACCEPTED", "died on"][strict - 10])
             if strict not in (0, 3):
                 return "%s: model rejects the document, strict path status=%d" % (ext, strict)
             if dref != [2]:
@@ -913,6 +918,10 @@ def compare(c, impl, model):
             return "%s: %d errors reported on stderr, model reports %d" % (ext, dn, nerr)
         if dref != refresh:
             return "%s: refresh_rate %r, model %r" % (ext, dref, refresh)
+        if strict >= 10:
+            return ("%s: the two strict entry points disagree: log4rs::init_raw_config %s, create_raw_config %s (model: %s)"
+                    % (ext, ["rejected", "accepted", "died on"][strict - 10], "accepted" if strict == 10 else "rejected",
+                       "accept" if model[6] else "reject"))
         if strict != 3 and strict != model[6]:
             return "%s: strict path %d, model %d" % (ext, strict, model[6])
         if lossy2:
